@@ -134,3 +134,44 @@ Example own_hull_independent_example :
   let b := [((0, 0), 3); ((0, 1), 3); ((1, 0), 3); ((2, 2), 4)] in
   own_rows a 3 = own_rows b 3 /\ own_hull a 3 = own_hull b 3 /\ own_hull a 3 <> [].
 Proof. cbv zeta. repeat split; try (vm_compute; reflexivity). vm_compute. discriminate. Qed.
+
+(* ---------------------------------------------------------------- own rows from the label's rows alone *)
+(* lexsort orders by label first, so filtering one label out of the sorted buffer = sorting that label's rows *)
+Lemma sel_insert_row l r (L : list row) : StronglySorted vj_le L ->
+  sel l (insert_row r L) = if r_v r =? l then insert_row r (sel l L) else sel l L.
+Proof.
+  intros HS. induction HS as [|x t HSt IH HF]; cbn [insert_row sel filter].
+  - destruct (r_v r =? l); reflexivity.
+  - destruct (row_leb r x) eqn:E.
+    + (* r goes in front of x *)
+      cbn [filter]. destruct (r_v r =? l) eqn:Er; [|reflexivity].
+      destruct (r_v x =? l) eqn:Ex.
+      * cbn [insert_row]. rewrite E. reflexivity.
+      * (* x and everything after it carry a larger label: nothing of label l is left *)
+        assert (Hx : l < r_v x).
+        { apply (proj1 (row_leb_vj r x)) in E. unfold vj_le in E. lia. }
+        assert (Et : filter (fun q => r_v q =? l) t = []).
+        { rewrite Forall_forall in HF. clear - HF Hx. induction t as [|y t' IHt]; [reflexivity|]. cbn [filter].
+          assert (Hy : vj_le x y) by (apply HF; left; reflexivity). unfold vj_le in Hy.
+          replace (r_v y =? l) with false by lia. apply IHt. intros z Hz. apply HF. right. exact Hz. }
+        unfold sel. rewrite Et. reflexivity.
+    + cbn [filter]. fold (sel l (insert_row r t)). fold (sel l t). rewrite IH.
+      destruct (r_v r =? l) eqn:Er; [|reflexivity].
+      destruct (r_v x =? l) eqn:Ex; [|reflexivity].
+      cbn [insert_row]. rewrite E. reflexivity.
+Qed.
+
+Lemma sel_lexsort l : forall ijv, sel l (lexsort ijv) = lexsort (sel l ijv).
+Proof.
+  induction ijv as [|r t IH]; [reflexivity|].
+  change (lexsort (r :: t)) with (insert_row r (lexsort t)).
+  rewrite (sel_insert_row l r (lexsort t) (lexsort_sorted_vj t)).
+  change (sel l (r :: t)) with (if r_v r =? l then r :: sel l t else sel l t).
+  destruct (r_v r =? l).
+  - change (lexsort (r :: sel l t)) with (insert_row r (lexsort (sel l t))). rewrite IH. reflexivity.
+  - exact IH.
+Qed.
+
+(* the buffer-order rows of label l are a function of the rows of l in the call's ijv list *)
+Theorem own_rows_of_label ijv ijv' l : sel l ijv = sel l ijv' -> own_rows ijv l = own_rows ijv' l.
+Proof. intros E. unfold own_rows. rewrite !sel_lexsort, E. reflexivity. Qed.
